@@ -25,6 +25,15 @@
 // bound (cooperative scheduler verif/mc): each request is refused or served by
 // the key configured under the name it asked for.
 //
+// Further (renewals.go, histories.go): certificate files that hold several
+// end-entity certificates for ONE subject (another certificate of the same
+// key, a re-keyed renewal) x the validity of each at signing time x their
+// order; and HISTORIES on one long-lived server / token stack with the key
+// file and the certificate files replaced (by the other key's, by a fresh copy)
+// and the key cache entry live or expired between two requests: every request
+// of every history ends in an error or in an artifact whose key and
+// certificate belong together.
+//
 // Development knobs (never needed by ./check):
 //
 //	C07_KNOWN_EXTRA=key1,key2   treat these violation keys as known findings
@@ -90,8 +99,11 @@ type keyCfg struct {
 	PGPKind   string `json:"pgp_mismatch_kind,omitempty"`
 	WantLeaf  string `json:"want_leaf,omitempty"` // fixture key whose leaf must be the embedded one
 	WantPGP   string `json:"want_pgp,omitempty"`
-	OnlyPGP   bool   `json:"only_openpgp_types,omitempty"` // run with the OpenPGP signature types only
-	OnlyX509  bool   `json:"only_x509_types,omitempty"`    // run with the X.509 signature types only
+	// WantAny: the certificate file holds several certificates of the signing
+	// key (renewals.go): the embedded leaf must be one of these (names in M.Leaf)
+	WantAny  []string `json:"want_leaf_any_of,omitempty"`
+	OnlyPGP  bool     `json:"only_openpgp_types,omitempty"` // run with the OpenPGP signature types only
+	OnlyX509 bool     `json:"only_x509_types,omitempty"`    // run with the X.509 signature types only
 
 	KeyFile   string   `json:"key_file"`
 	X509File  string   `json:"x509_file,omitempty"`
@@ -242,6 +254,8 @@ func enumConfigs() []keyCfg {
 	pgpStructConfigs(add)
 	// certificate files whose leaf carries a key of every algorithm a certificate can carry
 	leafAlgConfigs(add)
+	// certificate files with several end-entity certificates for one subject x validity at signing time
+	renewalConfigs(add)
 	seen := map[string]bool{}
 	for _, c := range out {
 		if seen[c.ID] {
@@ -688,6 +702,14 @@ func runCase(c keyCfg, t sigType, hash crypto.Hash, via pathKind, tmp string, ve
 			if M.PGPByID[o.PGPKeyID] != want {
 				viol(pre+"issuer-differs-from-configured-certificate", fmt.Sprintf("want %s [%s]", want, describe(o)))
 			}
+		case o.Leaf != nil && len(c.WantAny) > 0 && t.Cert == "x509":
+			found := false
+			for _, n := range c.WantAny {
+				found = found || string(o.Leaf.Raw) == string(M.Leaf[n].Raw)
+			}
+			if !found {
+				viol(pre+"embedded-leaf-differs-from-configured:"+class, fmt.Sprintf("want one of the file's certificates of the signing key %v [%s]", c.WantAny, describe(o)))
+			}
 		case o.Leaf != nil:
 			if string(o.Leaf.Raw) != string(M.Leaf[want].Raw) {
 				viol(pre+"embedded-leaf-differs-from-configured:"+class, fmt.Sprintf("want leaf of %s [%s]", want, describe(o)))
@@ -766,6 +788,7 @@ type workItem struct {
 	via    pathKind
 	names  bool // ci indexes nameCases() instead of the key configurations
 	conc   bool // ci indexes concCases(): concurrent requests for different keys
+	hist   bool // ci indexes histCases(): histories with the environment changed between requests
 }
 
 func workList(cfgs []keyCfg, types []sigType, thorough bool) []workItem {
@@ -812,6 +835,10 @@ func workList(cfgs []keyCfg, types []sigType, thorough bool) []workItem {
 				out = append(out, workItem{ci: ci, ti: ti, hash: crypto.SHA256, via: pathServer})
 			}
 		}
+	}
+	// histories on one server / one token stack with the key and certificate files replaced between requests
+	for i := range histCases(thorough) {
+		out = append(out, workItem{ci: i, hist: true})
 	}
 	return out
 }
@@ -886,6 +913,16 @@ func main() {
 		for _, cc := range concCases(true) {
 			if cc.id() == parts[0] && (len(parts) < 2 || parts[1] == "" || cc.Type == parts[1]) && (onlyPath == "" || cc.Via == onlyPath) {
 				runConcCase(cc, tmp, run.Thorough(), true)
+			}
+		}
+		if strings.HasPrefix(parts[0], "history|") {
+			done := map[string]bool{}
+			for _, hc := range append(histCases(false), histCases(true)...) {
+				k := hc.id() + "," + hc.Type + "," + string(hc.Via)
+				if hc.id() == parts[0] && (len(parts) < 2 || parts[1] == "" || hc.Type == parts[1]) && (onlyPath == "" || hc.Via == onlyPath) && !done[k] {
+					done[k] = true
+					runHistCase(hc, tmp, true)
+				}
 			}
 		}
 		for _, nc := range nameCases() {
@@ -969,6 +1006,7 @@ func main() {
 	si, sn := vlib.ShardIndex()
 	ncases := nameCases()
 	ccases := concCases(run.Thorough())
+	hcases := histCases(run.Thorough())
 	tmp, err := os.MkdirTemp(tmpBase, "c07-shard-")
 	must(err)
 	for wi, w := range work {
@@ -981,6 +1019,10 @@ func main() {
 		}
 		if w.names {
 			runNameCase(ncases[w.ci], types[w.ti], w.via, tmp, false)
+			continue
+		}
+		if w.hist {
+			runHistCase(hcases[w.ci], tmp, false)
 			continue
 		}
 		if w.ci == 0 && w.hash == crypto.SHA256 && w.via == pathStandalone {
@@ -1024,10 +1066,12 @@ func finish(cfgs []keyCfg, types []sigType, nwork int) {
 		"leaf_key_algorithm_signers":     laSigners(),
 		"concurrent_request_scenarios":   concCaseNames(run.Thorough()),
 		"concurrent_preemption_bound":    concPreemptions(run.Thorough()),
+		"environment_histories":          histBounds(run.Thorough()),
+		"same_subject_certificate_files": len(rnBundles()),
 		"hashes":                         map[bool][]string{false: {"sha256"}, true: {"sha256", "sha1", "sha384", "sha512"}}[run.Thorough()],
-		"paths":                          map[bool][]string{false: {"standalone", "worker-rpc (10 rotation scenarios)", "token-stack and server-handler under concurrent requests"}, true: {"standalone", "worker-rpc (10 rotation scenarios)", "server-handler (non-PKCS#12 configurations, sha256)", "token-stack and server-handler under concurrent requests"}}[run.Thorough()],
+		"paths":                          map[bool][]string{false: {"standalone", "worker-rpc (10 rotation scenarios)", "token-stack and server-handler under concurrent requests", "server-handler and token-stack over environment histories"}, true: {"standalone", "worker-rpc (10 rotation scenarios)", "server-handler (non-PKCS#12 configurations, sha256)", "token-stack and server-handler under concurrent requests", "server-handler and token-stack over environment histories"}}[run.Thorough()],
 	})
-	run.Rule("full product key configuration x signature type (thorough: x digest in {sha256,sha1,sha384,sha512}, plus the server-handler path with sha256): private key in {rsaA,rsaB,p256A,p256B,p384}; X.509 source in {leaf file, chain leaf-first, leaf-last, root-first, +unrelated root, +other leaf last/first, PKCS#7 bundle (PEM/DER/leaf-only/leaf-last, made by openssl), PKCS#12 (matching / key A leaf B / chain root-first / overridden by a file), certificate stored in the token (matching / other / leaf-last / stale), file of another key (same type, same curve other point, other curve, other algorithm), none, alias}; OpenPGP source in {matching, other key, other key type, two-entity keyrings binary/one armor/two armors in both orders, none}; token lookup in {requested key, a different key (same type / other type) for the requested name}; worker-RPC path (relic's worker client -> worker handler -> token cache -> scripted token, as used for pkcs11 tokens) with the key under the requested name {stable, replaced after the caller's lookup while the worker's cache entry is live / has expired, token honouring the caller's key id, token without key ids}. OpenPGP certificate structures (generated from the RSA fixture keys, read back packet by packet): primary + {one signing subkey (both role assignments), one encryption-only subkey, two signing subkeys in both orders, encryption subkey + signing subkey, one revoked signing subkey} x token key in {rsaA, rsaB, a third RSA key, p256A} = the primary / the n-th subkey / none of the certificate's keys, x every OpenPGP signature type {deb, rpm, pgp detached, detached armor+text, clearsign, inline}: error, or every signature packet names (issuer key id, issuer fingerprint) the key packet that is the token's key and verifies under exactly that key packet. Key names: a configuration FILE (loaded with config.ReadFile) with two keys (second one direct or an alias of a third entry) whose names are {distinct control, equal up to ASCII case (initial / all), equal up to a leading / trailing space / trailing tab, case + blanks, Unicode case folding} x key material {rsaA+rsaB, p256A+p256B} x request in {name A, name B, an alias of A, an alias of B, an unconfigured name that normalises to both} x {standalone, server handler} x signature type (quick: ps, appmanifest, apk v2, xar, rpm, pgp clearsign; thorough: all): error, or leaf / key / OpenPGP issuer of every signature = those configured under exactly the requested name (unconfigured name: only self-consistency is judged). Separately: relic's signature builders called directly (pkcs7.SignatureBuilder with/without signed attributes, xmldsig.Sign, xmldsig.SignEnveloping, each XML builder under 4 KeyInfo option sets) x 5 private keys x 7 certificate lists. Leaf KEY ALGORITHMS: one leaf certificate per public-key algorithm a certificate can carry (fixtures/keys/leafalgs, made by openssl over fresh unrelated keys: rsaEncryption, id-RSASSA-PSS without and with parameters, id-dsa, id-ecPublicKey on P-224/P-256/P-384/P-521, Ed25519, Ed448, X25519, X448, ML-DSA-44), (i) handed to every builder directly: signer in {the 5 fixture keys, the leafalgs keys Go can sign with: RSA, P-224, P-256, P-384, P-521, Ed25519} x every such leaf x {leaf + intermediate, leaf alone, leaf followed by the signer's own leaf}: refusal unless leaf and signer are the same fixture (then: refusal, or leaf first and the signature verifying under it), (ii) as the configured certificate file (chain) of key file rsaA / p256A x every X.509 signature type through the pipeline. CONCURRENT requests for different key names: 2-3 threads, each requesting a key name of its own / the same name / an alias (3 keys + 1 alias on one scripted token), through ONE instance of the server's token stack (tokencache.New(tokencache.Metrics{token}), standalone pipeline) or ONE server handler, with the cache entries cold / live / expired / caching off, x {ps (X.509), pgp detached (OpenPGP)}; every interleaving up to 2 (thorough 3) preemptions of the threads at the token's operations (lookup, sign) and the key cache's lock operations (sync rewritten to verif/shim/vsync), threads parked on unhooked primitives followed by the scheduler's monitor: every request ends in an error or an artifact whose leaf / OpenPGP issuer is the one configured under the requested name and verifies the signature value. distinct_nontrivial = cases whose configuration is inconsistent, order-variant, certificate-less, token-based or uses a certificate source other than the plain chain/PGP file")
+	run.Rule("full product key configuration x signature type (thorough: x digest in {sha256,sha1,sha384,sha512}, plus the server-handler path with sha256): private key in {rsaA,rsaB,p256A,p256B,p384}; X.509 source in {leaf file, chain leaf-first, leaf-last, root-first, +unrelated root, +other leaf last/first, PKCS#7 bundle (PEM/DER/leaf-only/leaf-last, made by openssl), PKCS#12 (matching / key A leaf B / chain root-first / overridden by a file), certificate stored in the token (matching / other / leaf-last / stale), file of another key (same type, same curve other point, other curve, other algorithm), none, alias}; OpenPGP source in {matching, other key, other key type, two-entity keyrings binary/one armor/two armors in both orders, none}; token lookup in {requested key, a different key (same type / other type) for the requested name}; worker-RPC path (relic's worker client -> worker handler -> token cache -> scripted token, as used for pkcs11 tokens) with the key under the requested name {stable, replaced after the caller's lookup while the worker's cache entry is live / has expired, token honouring the caller's key id, token without key ids}. OpenPGP certificate structures (generated from the RSA fixture keys, read back packet by packet): primary + {one signing subkey (both role assignments), one encryption-only subkey, two signing subkeys in both orders, encryption subkey + signing subkey, one revoked signing subkey} x token key in {rsaA, rsaB, a third RSA key, p256A} = the primary / the n-th subkey / none of the certificate's keys, x every OpenPGP signature type {deb, rpm, pgp detached, detached armor+text, clearsign, inline}: error, or every signature packet names (issuer key id, issuer fingerprint) the key packet that is the token's key and verifies under exactly that key packet. Key names: a configuration FILE (loaded with config.ReadFile) with two keys (second one direct or an alias of a third entry) whose names are {distinct control, equal up to ASCII case (initial / all), equal up to a leading / trailing space / trailing tab, case + blanks, Unicode case folding} x key material {rsaA+rsaB, p256A+p256B} x request in {name A, name B, an alias of A, an alias of B, an unconfigured name that normalises to both} x {standalone, server handler} x signature type (quick: ps, appmanifest, apk v2, xar, rpm, pgp clearsign; thorough: all): error, or leaf / key / OpenPGP issuer of every signature = those configured under exactly the requested name (unconfigured name: only self-consistency is judged). Separately: relic's signature builders called directly (pkcs7.SignatureBuilder with/without signed attributes, xmldsig.Sign, xmldsig.SignEnveloping, each XML builder under 4 KeyInfo option sets) x 5 private keys x 7 certificate lists. Leaf KEY ALGORITHMS: one leaf certificate per public-key algorithm a certificate can carry (fixtures/keys/leafalgs, made by openssl over fresh unrelated keys: rsaEncryption, id-RSASSA-PSS without and with parameters, id-dsa, id-ecPublicKey on P-224/P-256/P-384/P-521, Ed25519, Ed448, X25519, X448, ML-DSA-44), (i) handed to every builder directly: signer in {the 5 fixture keys, the leafalgs keys Go can sign with: RSA, P-224, P-256, P-384, P-521, Ed25519} x every such leaf x {leaf + intermediate, leaf alone, leaf followed by the signer's own leaf}: refusal unless leaf and signer are the same fixture (then: refusal, or leaf first and the signature verifying under it), (ii) as the configured certificate file (chain) of key file rsaA / p256A x every X.509 signature type through the pipeline. CONCURRENT requests for different key names: 2-3 threads, each requesting a key name of its own / the same name / an alias (3 keys + 1 alias on one scripted token), through ONE instance of the server's token stack (tokencache.New(tokencache.Metrics{token}), standalone pipeline) or ONE server handler, with the cache entries cold / live / expired / caching off, x {ps (X.509), pgp detached (OpenPGP)}; every interleaving up to 2 (thorough 3) preemptions of the threads at the token's operations (lookup, sign) and the key cache's lock operations (sync rewritten to verif/shim/vsync), threads parked on unhooked primitives followed by the scheduler's monitor: every request ends in an error or an artifact whose leaf / OpenPGP issuer is the one configured under the requested name and verifies the signature value. SAME-SUBJECT certificate files x VALIDITY (fixtures/keys/renewals, rewritten byte-identically by cmd/certgen/renewals): key file A of pair {rsaA/rsaB, p256A/p256B}; certificate file = first leaf P (key A, validity in {expired, valid, not yet valid at the clock of the run}) + companion Q with the SAME subject in {none, another certificate of key A, a certificate of key B (re-keyed renewal)} x validity of Q in {expired, valid, not yet valid} x position of Q in {right after P, after the CA certificates, before P}, then intermediate and root = 114 files x every X.509 signature type: error, or the embedded leaf is one of the file's certificates OF KEY A, is listed first and verifies the signature value. ENVIRONMENT HISTORIES on one long-lived process: request, environment step, request, ... with all requests of a history for one key name and signature type through ONE server handler (file token behind the server's key cache) or ONE token stack (tokencache.New(tokencache.Metrics{file token}), standalone pipeline; PKCS#12 key files); environment step = full product key file in {untouched, fresh copy of the same key, the other key of the pair} x certificate files (x509certificate and pgpcertificate together; PKCS#12: inside the key file) in {untouched, fresh copy, the other key's} x key-cache entry in {live, expired on the virtual clock} = 18 steps (PKCS#12: 6); files replaced by rename of a new file over the old one or by rewriting in place (one method per history), modification time moved on by one hour with every write; pairs {rsaA<->rsaB, p256A<->p256B}; quick: every signature type x every 1-step history x both methods and, for one type per signature mechanism (ps, appmanifest, apk v2, xar, cosign, rpm, pgp clearsign), every 2-step history (rename); thorough: every type x every 2-step history x both methods x {server handler, token stack} and every 3-step history for the one-per-mechanism types; every request: error, or every signature value verifies under its embedded leaf / named OpenPGP issuer, the leaf is listed first and is a certificate that was configured at some moment of the history so far. distinct_nontrivial = cases whose configuration is inconsistent, order-variant, certificate-less, token-based or uses a certificate source other than the plain chain/PGP file")
 	run.Assume("canonical bytes of XML-DSig SignedInfo are taken from relic's xmldsig.SerializeCanonical (canonicalisation is C19's subject); digest and RSA/ECDSA verification over them are the harness's (Go crypto)")
 	run.Assume("OpenPGP packets are read and hashed with ProtonMail go-crypto's packet layer (PublicKey.VerifySignature), not with relic's pgptools; the key an OpenPGP signature 'embeds' is the issuer it names (issuer key id subpacket, else issuer fingerprint; when both are present they must name one key); it is verified under exactly that key packet, primary or subkey, without applying any usage-flag, revocation or key-selection policy; inline messages are read packet by packet (compressed / one-pass / literal / signature)")
 	run.Assume("whether relic accepts a token key that is a SUBKEY of the configured OpenPGP certificate is not judged (the unchanged tree refuses it): only that an emitted signature names and verifies under the token's key. A requested key name that is not configured but equals a configured one after case folding / trimming may be refused or served: only self-consistency of the artifact is judged")
@@ -1035,8 +1079,13 @@ func finish(cfgs []keyCfg, types []sigType, nwork int) {
 	run.Assume("in the worker-RPC scenarios the scripted token stands for relic's pkcs11 token: it resolves keys by the configured name only and ignores the key id passed in the request context (as token/p11token/key.go does); the cache lifetime is relic's default (600 s) and is run out on a virtual clock (token/tokencache's time import rewritten to verif/shim/vtime)")
 	run.Assume("a leaf certificate 'belongs to' a signing key exactly when the subjectPublicKey bits of its SubjectPublicKeyInfo are the signer's (established at start-up on the encoded bytes for every signer x leafalgs leaf); a leaf of another SubjectPublicKeyInfo algorithm over the SAME key bits (an RSASSA-PSS certificate for the signer's own modulus) is not enumerated. EC keys over curves for which crypto/x509 refuses to parse a certificate (secp256k1, brainpool, explicit parameters) cannot reach relic as a certificate and are not enumerated")
 	run.Assume("concurrent requests: scheduling points are the scripted token's operations and the key cache's mutex operations; code between two such points runs atomically (no preemption inside the certificate loader or a signer module). A request that is refused, panics or does not finish is not a violation here (liveness: C14)")
+	run.Assume("environment histories: changes to the key and certificate files happen BETWEEN two requests, never while one is being served (a replacement racing a request is not enumerated); the two certificate files of a key are replaced together; which key serves a request while the cache still holds the old key object is not judged, only that key and certificate of every emitted artifact belong together; the cache lifetime is relic's default (600 s) on a virtual clock (token/tokencache's time import rewritten to verif/shim/vtime); a caller that holds one token.Key object of a plain file token across requests without the cache (nothing in relic does) is not enumerated")
+	run.Assume("same-subject certificate files: validity classes are those of the committed fixtures at the real clock of the run (expired: ended 2021/2022; not yet valid: begins 2044/2045), verified at start-up; relic is not required to prefer a valid certificate over an expired one, or to refuse an expired one: only key/certificate correspondence is judged")
 	run.Assume("for CMS only the signature value is judged (signed attributes re-tagged as SET, or the content when there are none): messageDigest/content binding is C01/C02's subject")
 	run.Assume("the certificates field of CMS SignedData, X509Data, the APK v2 certificate sequence, the xar KeyInfo and the VSIX relationship part are treated as ordered lists whose first member must be the signer's certificate")
+	if rnOutdated != "" {
+		run.Capped("same-subject certificate files not enumerated: the validity classes of fixtures/keys/renewals no longer hold (" + rnOutdated + "); regenerate them with other dates (cmd/certgen/renewals)")
+	}
 	if len(extraKnown) > 0 {
 		// development only: hits are listed in the evidence as dev_known_extra_hits:<key>
 		fmt.Println("DEV: C07_KNOWN_EXTRA active (violations with these keys are not reported):", os.Getenv("C07_KNOWN_EXTRA"))
